@@ -204,9 +204,10 @@ def g_addrownumbers(rng, ragged):
     return {'table': _table(rng, ragged), 'start': rng.choice([1, 0, 5, -1]), 'step': rng.choice([1, 2, -1]), 'field': rng.choice(['row', 'n'])}
 
 
-@form('addfieldusingcontext', ragged='rect')
+@form('addfieldusingcontext')
 def g_afuc(rng, ragged):
-    return {'table': _table(rng, False, pool=[0, 1, 2, 3, 5])}
+    # short, blank and long rows too: each is still one row of context and one output row
+    return {'table': _table(rng, ragged, pool=[0, 1, 2, 3, 5])}
 
 
 @form('rename', dup=True)
@@ -569,13 +570,19 @@ def j_addrownumbers(case, ctx, table, hdr, rows, tabs, frame):
 
 
 def j_addfieldusingcontext(case, ctx, table, hdr, rows, tabs, frame):
+    w = len(hdr)
+
+    def first(r):
+        return r[0] if len(r) else 7
+
     def q(prv, cur, nxt):
-        return (0 if prv is None else prv['acc']) + cur[0] + (0 if nxt is None else 100 * nxt[0])
+        # prv carries the value computed for it at the position its own length gave it
+        return (0 if prv is None else prv[len(prv) - 1]) + first(cur) + (0 if nxt is None else 100 * first(nxt))
     exp = [tuple(hdr) + ('acc',)]
     acc = 0
     for i, r in enumerate(rows):
-        acc = acc + r[0] + (100 * rows[i + 1][0] if i + 1 < len(rows) else 0)
-        exp.append(tuple(r) + (acc,))
+        acc = acc + first(r) + (100 * first(rows[i + 1]) if i + 1 < len(rows) else 0)
+        exp.append(tuple(r) + ((acc,) if len(r) == w or not frame else (WILD,)))
     return _report(_run(lambda: petl.addfieldusingcontext(table, 'acc', q)), exp, 'addfieldusingcontext', case)
 
 
